@@ -83,6 +83,9 @@ CORNERS = [
     # statements removed in front of a string statement must not turn it into a docstring
     ('pass-before-string-statement', "def documented():\n    pass\n    'not a docstring'\n    return 1\nclass Holder:\n    pass\n    'not a docstring either'\n    value = 2\nprint(documented.__doc__, Holder.__doc__, documented(), Holder.value)\n"),
     ('pass-before-string-statement-module', "pass\n'not a module docstring'\nprint(__doc__ is None)\n"),
+    ('pass-before-string-statement-coroutine', "import asyncio\nasync def handler(request):\n    pass\n    'not a docstring'\n    return request\nclass Service:\n    async def call(self):\n        pass\n        pass\n        'still not a docstring'\n    def plain(self):\n        for item in [1]:\n            pass\n            'loop text'\n        return item\nprint(handler.__doc__, Service.call.__doc__, Service().plain(), asyncio.run(handler(5)))\n"),
+    # an annotation without a value on an attribute or an item evaluates the object (and the index), never the attribute or item itself
+    ('valueless-annotation-on-attribute-and-item', "class Point:\n    def __init__(self, x_value, y_value):\n        self.x_value: int\n        self.y_value: int\n        self.x_value = x_value\n        self.y_value = y_value\n    def __getattr__(self, name):\n        print('missing', name)\n        raise AttributeError(name)\nregistry = {}\nregistry['origin']: Point\nregistry['origin'] = Point(0, 0)\nclass Loud(dict):\n    def __missing__(self, key):\n        print('missing key', key)\n        return None\nloud = Loud()\nloud['absent']: int\nprint(Point(3, -4).x_value, sorted(registry), len(loud))\n"),
     ('passes-before-string-in-nested-def', "def outer():\n    def inner():\n        pass\n        pass\n        'text'\n    return inner.__doc__\nprint(outer())\n"),
     ('short-parameter-read-in-nested-scope', "def total(A, rows):\n    return sum(item * A + item + item for item in rows)\ndef outer(B, count):\n    def inner(value):\n        acc = value * B\n        acc = acc + value\n        return acc + value + acc\n    return inner(count)\nprint(total(2, [1, 2, 3]), outer(3, 4))\n"),
     ('nested-class-private', "class Outer:\n    __secret = 1\n    def get(self):\n        return self.__secret\n    class Inner:\n        def peek(self, outer):\n            return outer._Outer__secret\nprint(Outer().get(), Outer.Inner().peek(Outer()))\n"),
